@@ -320,6 +320,11 @@ class Check:
             key = (v["clause"], canon(v.get("signature")))
             seen.setdefault(key, []).append(v)
         paths = []
+        d0 = os.path.join(REPLAYS, self.pid)
+        if os.path.isdir(d0):      # replays of an earlier run of this tier are stale
+            for f in os.listdir(d0):
+                if f.startswith(f"{self.tier}-"):
+                    os.remove(os.path.join(d0, f))
         if seen:
             d = os.path.join(REPLAYS, self.pid)
             os.makedirs(d, exist_ok=True)
